@@ -10,3 +10,4 @@ CONSTANTS
   FillerIdx = {}
   Inject = FALSE
   FinishEarly = FALSE
+  OnlyWordPairs = FALSE
